@@ -6,6 +6,7 @@ import Mdsort.Proofs.EvalErrProp
 import Mdsort.Proofs.EvalAtt
 import Mdsort.Proofs.ExecStatus
 import Mdsort.Proofs.EvalPFail
+import Mdsort.Proofs.WorldIndependent
 
 /-!
 # C04 - the exit status tells the truth (MDA contract, error isolation)
@@ -130,6 +131,94 @@ theorem C04_error_flag_inert (env : PEnv) (orc : EvalOracles) (expr : Expr) (fue
     processMessage env orc expr md name { st with error := b || st.error } =
       (processMessage env orc expr md name st).bind (fun x => pure ({ x.1 with error := b || x.1.error }, x.2)) :=
   ⟨Proofs.Own.walk_setErr env orc expr fuel md st b, Proofs.Own.processMessage_setErr env orc expr md name st b⟩
+
+/-! ## No hidden state: what is done for a message does not depend on the messages before it (package ce14)
+
+`C04_error_flag_inert` says that the error FLAG left by earlier messages is never looked at.  The statements below say it of
+the whole loop state `MainSt` - the flags, the `-d` log and every entry of the registry `files` except the one the message
+itself reads, `st.files.get md.path name` (its content) - and of the position in the run.  `Proofs.MsgEffect`
+(Proofs/WorldIndependent.lean) is what a message contributes: an error bit, a reject bit, its `-d` lines and where its own file
+is afterwards; `e.apply dir name st` or-s the bits into the flags of `st`, appends the lines and replaces the entry
+`(dir, name)`.  They are what makes the metamorphic oracle of `tools/isolation.py` (the outcome for a message in a run over a
+whole population = its outcome in a run on that message alone) a consequence of the model rather than an assumption. -/
+
+/-- **`processMessage` has no hidden state.**  `processMessage`, regarded as a function of the loop state, factors through the
+one entry the message reads: there is a program `q` over effects - depending on the configuration, the maildir and the name,
+NOT on the state - such that from every state `st` the program is `q (st.files.get md.path name)` followed by applying the
+effect to `st`; the maildir is returned as it was.  So the calls issued for a message (for all call results) and its
+contribution to the error / reject flags and to the log are a function of (configuration, maildir, name, content, results of
+its own calls), whatever earlier messages left in `MainSt`.  (The witness is `Proofs.messageEffect`; `C04_error_flag_inert`
+for `processMessage` is the special case of two states that differ in the error flag.) -/
+theorem C04_message_independent (env : PEnv) (orc : EvalOracles) (expr : Expr) (md : Maildir) (name : Bytes) :
+    ∃ q : Option Bytes → Prog Proofs.MsgEffect, ∀ st : MainSt,
+      processMessage env orc expr md name st =
+        (q (st.files.get md.path name)).bind fun e => Prog.ret (e.apply md.path name st, md) :=
+  ⟨Proofs.messageEffect env orc expr md name, fun st => Proofs.processMessage_effect env orc expr md name st⟩
+
+/-- **Independence of the runs** (the form the isolation stage uses).  Take two runs of `processMessage` for the same message:
+from ANY two loop states that agree on the message's own entry (`hfile`), at ANY two positions (next call index `i` / `i'`,
+trace so far `tr` / `tr'` - e.g. after k earlier messages, and alone), against ARBITRARY call results that agree on the
+message's own calls (`hres`: the `k`-th call of the one run gets the result of the `k`-th call of the other).  Then both runs
+issue the same calls with the same results, and both change their loop state by the same effect `e`: the same error bit, the
+same reject bit, the same `-d` lines, the same new place and content of the file.  `hfile` is where an earlier message CAN
+reach a later one: only by changing the entry `(md.path, name)` itself, i.e. by being moved to exactly that directory and name
+(`C04_message_effect_frame`) - known finding F21 and a destination that is walked later. -/
+theorem C04_message_independent_runs (env : PEnv) (orc : EvalOracles) (expr : Expr) (md : Maildir) (name : Bytes)
+    (st st' : MainSt) (hfile : st.files.get md.path name = st'.files.get md.path name)
+    (orcl orcl' : Nat → Call → Res) (i i' : Nat) (tr tr' : List (Call × Res))
+    (hres : ∀ k c, orcl (i + k) c = orcl' (i' + k) c) :
+    ∃ (e : Proofs.MsgEffect) (calls : List (Call × Res)),
+      runOracle orcl (processMessage env orc expr md name st) i tr = ((e.apply md.path name st, md), tr ++ calls) ∧
+      runOracle orcl' (processMessage env orc expr md name st') i' tr' = ((e.apply md.path name st', md), tr' ++ calls) :=
+  Proofs.processMessage_independent env orc expr md name st st' hfile orcl orcl' i i' tr tr' hres
+
+/-- The maildir, message and two loop states of the non-vacuity examples: `match all discard` on the message `1` of `/m/new`;
+the second state is what earlier messages may have left: another registered file, the error flag, a `-d` line. -/
+def indepMd : Maildir :=
+  { root := [47, 109], path := [47, 109, 47, 110, 101, 119], dirH := some 3, subdir := .new, walk := true, stdin := false }
+def indepMsg : Bytes := [83, 117, 98, 106, 101, 99, 116, 58, 32, 120, 10, 10, 98, 10]
+def indepSt : MainSt := { files := [(indepMd.path, [49], indepMsg)], error := false, reject := false, log := [] }
+def indepSt' : MainSt :=
+  { files := [([47, 120], [50], [65]), (indepMd.path, [49], indepMsg)], error := true, reject := false, log := [[49]] }
+def indepOrcl : Nat → Call → Res := fun _ c => match c with | .read _ => .ok 0 | _ => .ok 7
+
+/-- Non-vacuity of `C04_message_independent_runs`: the two states differ (flag, log, another entry) and agree on the message's
+own entry; the results agree on the message's own calls (the run alone starts at call 0, the other at call 17). -/
+example :
+    indepSt.files.get indepMd.path [49] = indepSt'.files.get indepMd.path [49] ∧ indepSt.error ≠ indepSt'.error ∧
+    indepSt.log ≠ indepSt'.log ∧ (∀ k c, indepOrcl (0 + k) c = indepOrcl (17 + k) c) :=
+  ⟨by decide +kernel, by decide, by decide, fun _ _ => rfl⟩
+
+/-- ... and what the theorem then gives for them: the same four calls (`openat`, `read`, `unlinkat` of the message's own name,
+`close`, cf. the example under `C04_isolation_calls`), appended to whatever went before, and one effect for both states. -/
+example (tr' : List (Call × Res)) :
+    ∃ (e : Proofs.MsgEffect) (calls : List (Call × Res)),
+      runOracle indepOrcl (processMessage Proofs.examplePEnv Proofs.exampleOracles (.mtch 1 (.all 1) (.discard 1)) indepMd [49]
+        indepSt) 0 [] = ((e.apply indepMd.path [49] indepSt, indepMd), [] ++ calls) ∧
+      runOracle indepOrcl (processMessage Proofs.examplePEnv Proofs.exampleOracles (.mtch 1 (.all 1) (.discard 1)) indepMd [49]
+        indepSt') 17 tr' = ((e.apply indepMd.path [49] indepSt', indepMd), tr' ++ calls) :=
+  C04_message_independent_runs _ _ _ indepMd [49] indepSt indepSt' (by decide +kernel) indepOrcl indepOrcl 0 17 [] tr'
+    (fun _ _ => rfl)
+
+/-- **What an effect does to the other entries of the registry.**  Applying a message's effect leaves `files.get d' n'`
+unchanged for every `(d', n')` other than the message's own entry and the place its file was taken to.  With
+`C04_message_independent_runs`: the entry a LATER message reads - hence everything done for it - is the initial one unless an
+earlier message was moved to exactly that directory and name. -/
+theorem C04_message_effect_frame (dir name : Bytes) (e : Proofs.MsgEffect) (st : MainSt) (d' n' : Bytes)
+    (hown : ¬ (d' = dir ∧ n' = name))
+    (hdst : ∀ x, e.file = some (some x) → ¬ (d' = x.1 ∧ n' = x.2.1)) :
+    (e.apply dir name st).files.get d' n' = st.files.get d' n' :=
+  Proofs.MsgEffect.apply_files_frame dir name e st d' n' hown hdst
+
+/-- Non-vacuity: the effect "moved to `/d/new` as `8`" of the message `1` of `/m/new` and the entry `2` of `/m/new`. -/
+example :
+    let e : Proofs.MsgEffect := ⟨false, false, [], some (some ([47, 100, 47, 110, 101, 119], [56], indepMsg))⟩
+    ¬ (indepMd.path = indepMd.path ∧ ([50] : Bytes) = [49]) ∧
+    (∀ x, e.file = some (some x) → ¬ (indepMd.path = x.1 ∧ ([50] : Bytes) = x.2.1)) := by
+  refine ⟨by decide, ?_⟩
+  intro x hx
+  cases hx
+  decide
 
 /-! ## Where the error flag comes from
 
